@@ -7,7 +7,7 @@
    Props/C07.v); it is checked on the implementation by the c12 stream's independent substitution. *)
 From Coq Require Import List NArith ZArith Bool Arith.
 From AG Require Import Base.Val Base.Sort Str.MetaVar Tree.Tree Match.MatchNode Rule.Rule Rule.Kinds
-  Rule.Eval Rewrite.Indent Rewrite.IndentProofs Rewrite.Template Rewrite.TemplateProofs Front.Load Front.LoadSpec Front.LoadProofs.
+  Rule.Eval Rewrite.Indent Rewrite.IndentProofs Rewrite.Template Rewrite.TemplateProofs Front.Load Front.LoadSpec Front.LoadProofs Front.Apply Front.ApplyProofs.
 Import ListNotations.
 
 (* 1. the topological sort: total, sound, complete — for every dependency map *)
@@ -94,6 +94,24 @@ Theorem C12_fix_transformed_multi_sigil : forall doc env v src,
   maybe_get_var doc env v = Some (map_cont (fun l => repeat SP (tv_indent v) ++ l) src).
 Proof. exact maybe_get_var_multiple_transformed. Qed.
 Print Assumptions C12_fix_transformed_multi_sigil.
+
+(* 7. the transformation pass of an accepted rule (Front/Apply.v: the empty placeholder written before each
+      computation, sources looked up among captures first, then transformed variables): afterwards every
+      transformation holds exactly what it computes from the FINAL text of its source — so each was applied
+      after its input and none ever read a placeholder.  [compute] (what substring / replace / convert /
+      rewrite make of a text) is arbitrary. *)
+Theorem C12_apply_equations :
+  forall (compute : str -> transf -> option str -> str) k globals upper uord tord ts e0,
+    load_core k globals upper = LOk (uord, tord) ->
+    k_trans k = Some ts ->
+    a_trans e0 = [] ->
+    let final := apply_all compute ts tord e0 in
+    (forall key t, lookup key ts = Some t ->
+       lookup key (a_trans final) = Some (compute key t (var_bytes final (source_var t))))
+    /\ (forall key, In key (map fst (a_trans final)) <-> In key (map fst ts))
+    /\ a_single final = a_single e0 /\ a_multi final = a_multi e0.
+Proof. exact ApplyProofs.C12_apply_equations. Qed.
+Print Assumptions C12_apply_equations.
 
 (* non-vacuity: `rule: {pattern: foo($A), matches: U}`, `utils: {U: {kind: 7}, W: {not: {matches: U}}}`,
    `transform: {T: {source: $A}, S: {source: $T}}`, `fix: "x$S"` is accepted, S after T; closing the cycle
